@@ -117,6 +117,7 @@ type builder struct {
 	php7  bool
 	feats map[string]int
 	used  map[string]bool // aliases that were referenced
+	depth int
 }
 
 func (b *builder) w(s string) { b.b.WriteString(s) }
